@@ -1,0 +1,21 @@
+//go:build verif
+
+package openapi3filter
+
+import (
+	"net/http"
+
+	"github.com/getkin/kin-openapi/openapi3"
+)
+
+// Exports for the verification harness in /verif (build tag "verif" only; nothing here is compiled otherwise).
+
+// VerifDecodeStyledParameter exposes decodeStyledParameter: the decoded value of a styled parameter, whether it was found, and the parse error.
+func VerifDecodeStyledParameter(param *openapi3.Parameter, input *RequestValidationInput) (any, bool, error) {
+	return decodeStyledParameter(param, input)
+}
+
+// VerifDecodeHeader exposes decodeValue over a header set, as used for response headers.
+func VerifDecodeHeader(header http.Header, name string, sm *openapi3.SerializationMethod, schema *openapi3.SchemaRef, required bool) (any, bool, error) {
+	return decodeValue(&headerParamDecoder{header: header}, name, sm, schema, required)
+}
